@@ -16,21 +16,22 @@ Variable cap : nat.
 Variable lam : fev -> N.
 Variable vals : list (N * N).
 Hypothesis Hvals : vals_ok vals.
+Variable K : N.
 
 Notation ws := (map snd vals).
 Notation nv := (length vals).
 Notation ae := (to_aevent lam vals).
 Notation Core := (Core lam vals).
 Notation cache_inv := (cache_inv vals).
-Notation Sim := (Sim lam vals).
+Notation Sim := (Sim lam vals K).
 
 Lemma build_step i T Dr B e : Sim i T Dr B ->
   parents_known T e -> (ecr (fe e) < nv)%nat -> ev_wf T e -> nlookup (eid (fe e)) T = None ->
-  r_frame_ok vals T (mk_node nv T e) = true -> l_ctr (i_st i) + 1 < 2 ^ 192 ->
+  r_frame_ok vals T (mk_node nv T e) = true -> l_ctr (i_st i) + 1 < 2 ^ 192 -> l_ctr (i_st i) + 1 <= K ->
   exists i', step cap [] sample i (OpB (ae e)) = (ObsB (Ok (r_frame_high vals T (mk_node nv T e))), i', false) /\
     Sim i' T Dr B /\ l_ctr (i_st i') = l_ctr (i_st i) + 1.
 Proof.
-  intros [W [S [ES0 AV]] FR PR SG CH] PK CR EW NL FO Hctr.
+  intros [W [S [ES0 AV]] FR CT PR SG CH] PK CR EW NL FO Hctr HK.
   set (st := i_st i) in *. set (es := i_es i) in *.
   destruct ES0 as [C CI I0 N0].
   pose proof (wfTD_wfT vals T Dr W) as HwfT.
@@ -55,7 +56,7 @@ Proof.
   assert (NLt : nlookup tmp T = None).
   { destruct (nlookup tmp T) as [m|] eqn:L; [|reflexivity]. exfalso. apply nlookup_some in L as [Hm Em].
     destruct (node_event vals T Dr m W Hm) as [e0 [He0 [E0 _]]].
-    apply (FR e0 He0 1 (lam e) c (be 24 c) Sc). rewrite E0, Em. reflexivity. }
+    apply (FR e0 He0). exists 1, (lam e), c, (be 24 c). split; [unfold c; lia|]. split; [exact Sc|]. rewrite E0, Em. reflexivity. }
   assert (NTt : ~ is_temp (l_ctr st) tmp).
   { intros (ep & lm & c2 & t2 & Bc & S2 & E2). apply (temp_id_inj _ _ _ _ _ _ _ _ Sc S2) in E2. unfold c in E2. lia. }
   cbn [l_vals l_idx l_epoch set_ctr].
